@@ -87,12 +87,34 @@ theorem focus_falls_back (g : Agenda) :
   have S := getNext_spec g
   exact ⟨fun a h => ((S.some_ a h).1), fun h => S.none_ h⟩
 
-/-- **fire_all_bounded (IncrementalEngine).** Whatever the loop body does with an activation (any re-activation
-pattern, any rule set), `fire_all` stops after at most `max_iterations = 1000` executions. -/
-theorem fire_all_bounded_incremental {σ : Type} (pop : σ → Option Act × σ) (body : σ → Act → σ × Option Nat) (s : σ) :
-    (incLoop pop body incBound s []).2.length ≤ 1000 := by
-  have := incLoop_length pop body incBound s []
+/-- **fire_all_bounded (IncrementalEngine, after fix-C06b).** Whatever the loop does with an activation (any skip test, any
+re-activation pattern, any rule set), `fire_all` executes at most `max_iterations = 1000` activations; the model loop is total
+(structural recursion: the executions are bounded by the count, the skipped activations by the agenda — `fire_all_skips_terminate`). -/
+theorem fire_all_bounded_incremental {σ : Type} (pop : σ → Option Act × σ) (skip : σ → Act → Bool) (size : σ → Nat)
+    (body : σ → Act → σ × Nat) (s : σ) :
+    (incLoop pop skip size body incBound s []).2.length ≤ 1000 := by
+  have := incLoop_length pop skip size body incBound s []
   simpa [incBound] using this
+
+/-- **the skipping steps terminate.**  Skipped activations (retracted / stale) are not counted against `max_iterations`; they
+cannot loop because `get_next_activation` removes what it returns: on an agenda state the inner loop run with any fuel of at
+least the number of pending activations gives the same result as with exactly that number — its fuel never cuts it short. -/
+theorem fire_all_skips_terminate (skip : Agenda → Act → Bool) (g : Agenda) (k : Nat) (h : g.acts.length ≤ k) :
+    incSkip (fun g => (g.getNext.1, g.getNext.2)) skip k g =
+    incSkip (fun g => (g.getNext.1, g.getNext.2)) skip g.acts.length g := by
+  apply incSkip_fuel (fun g => (g.getNext.1, g.getNext.2)) skip (fun g => g.acts.length) _ _ k g h
+  · intro s a s' hp
+    simp only [Prod.mk.injEq] at hp
+    obtain ⟨h1, h2⟩ := hp
+    subst h2
+    exact ((getNext_spec s).some_ a h1).2.2.2.2.2.2
+  · intro s hs
+    have : s.acts = [] := List.eq_nil_of_length_eq_zero hs
+    cases hn : s.getNext.1 with
+    | none => rfl
+    | some a =>
+      have := ((getNext_spec s).some_ a hn).2.1
+      simp_all
 
 /-- **fire_all_bounded (ReteUlEngine).** For every rule set, conditions and actions: at most 100 passes, each
 firing every rule at most once. -/
